@@ -27,6 +27,19 @@ def run(tier, seed):
     vlib.run_harness(["replay", cases, rep_path], timeout=3000)
     rep = vlib.load_report(rep_path)
     v.add_report(rep, "M2:MC_Lists", traces=len(r["exports"]))
+    # which parser a line is handed to under each rule-type option (lexical classifier, byte-exact)
+    cfg2 = "INIT Init\nNEXT Next\nCONSTANTS\n  N = %d\nINVARIANTS Monotone Exported\nCHECK_DEADLOCK FALSE\n" % (5 if tier == "quick" else 6)
+    rc = vlib.run_tlc("MC_Classify", cfg2, wd, "mc_classify", workers=12, timeout=1800, heap="12g")
+    if rc["error"]:
+        raise vlib.ToolError("MC_Classify failed: " + rc["error"][:1500])
+    v.add_tlc(rc)
+    vlib.require(len(rc["exports"]) > 100000, "too few classified lines")
+    ccases = os.path.join(wd, "cases_classify.jsonl")
+    vlib.write_jsonl(ccases, rc["exports"])
+    crep_path = os.path.join(wd, "report_classify.json")
+    vlib.run_harness(["replay", ccases, crep_path], timeout=3000)
+    crep = vlib.load_report(crep_path)
+    v.add_report(crep, "M2:MC_Classify", traces=len(rc["exports"]))
     tr = os.path.join(wd, "trace.ndjson")
     summ = json.loads(vlib.run_harness(["record", "c11", tr, str(seed), "12000" if tier == "quick" else "150000"], timeout=3000))
     rt, done, mism = vlib.trace_validate("Trace_C11", tr, wd, "trace")
